@@ -103,38 +103,6 @@ Definition fresh_eqb_parts (a : api) (w : view) : list (string * bool) :=
 
 Definition fresh_eqb (a : api) (w : view) : bool := forallb snd (fresh_eqb_parts a w).
 
-(* ---- cases ---- *)
-Inductive item :=
-| IOp (o : op)
-| IObs (final : bool) (w : view) (accs : amap acc)   (* the implementation's cache at this point *)
-| IPanic.                                            (* the implementation panicked in the previous op *)
-
-Definition case := list item.
-
-Definition failing (pre : string) (parts : list (string * bool)) : list string :=
-  map (fun p => pre ++ fst p) (filter (fun p => negb (snd p)) parts).
-
-Definition accs_of (w : view) : amap acc := map (fun kv => (fst kv, acc_of (snd kv))) (vw_nodes w).
-
-Fixpoint check_items (s : api * cache) (its : list item) : list string :=
-  match its with
-  | [] => []
-  | IOp o :: t => check_items (step s o) t
-  | IPanic :: t => if panicked (snd s) then [] else ["corr:panic"]
-  | IObs final w accs :: t =>
-      let m := view_of (snd s) in
-      (if panicked (snd s) then ["corr:model-panic"] else []) ++
-      failing "corr:" (view_eqb_parts w m) ++
-      failing "corr:accessors-" [("sums", amap_eqb acc_eqb accs (accs_of m))] ++
-      (if final then failing "oracle:" (fresh_eqb_parts (fst s) w) else []) ++
-      check_items s t
-  end.
-
-Definition check_case (c : case) : list string := nodup string_dec (check_items (api0, cache0) c).
-
-Definition check_all (cs : list (Z * case)) : list (Z * string) :=
-  flat_map (fun ic => map (fun t => (fst ic, t)) (check_case (snd ic))) cs.
-
 (* ---- boolean versions of the theorem's hypotheses (proved sound in C11/Proofs2.v) ---- *)
 Definition uniq_pids_b (a : api) : bool :=
   forallb (fun kv1 => forallb (fun kv2 =>
@@ -180,3 +148,43 @@ Definition covers_b (a : api) (c : cache) (r : list op) : bool :=
   forallb (fun m => existsb (delivers_node m) r) (keys (a_nodes a) ++ keys (n2p c)) &&
   forallb (fun k => existsb (delivers_claim k) r) (keys (a_claims a) ++ keys (c2p c)) &&
   forallb (fun k => existsb (delivers_pod k) r) (keys (binds c)).
+
+(* ---- cases ---- *)
+Inductive item :=
+| IOp (o : op)
+| IClose (r : list op)                               (* the closing round *)
+| IObs (final : bool) (w : view) (accs : amap acc)   (* the implementation's cache at this point; [final]: the
+                                                        harness believes the theorem's premises hold here *)
+| IPanic.                                            (* the implementation panicked in the previous op *)
+
+Definition case := list item.
+
+Definition failing (pre : string) (parts : list (string * bool)) : list string :=
+  map (fun p => pre ++ fst p) (filter (fun p => negb (snd p)) parts).
+
+Definition accs_of (w : view) : amap acc := map (fun kv => (fst kv, acc_of (snd kv))) (vw_nodes w).
+
+(* [ok]: hist_ok_b of the ops so far; [hyp]: all premises of quiescent_equals_fresh_decidable held when the
+   closing round started *)
+Fixpoint check_items (s : api * cache) (ok hyp : bool) (its : list item) : list string :=
+  match its with
+  | [] => []
+  | IOp o :: t => check_items (step s o) (ok && op_ok_b (fst s) (snd s) o) hyp t
+  | IClose r :: t =>
+      check_items (fold_left step r s) ok
+        (ok && pods_settled_b (fst s) && forallb is_deliver_b r && covers_b (fst s) (snd s) r) t
+  | IPanic :: t => if panicked (snd s) then [] else ["corr:panic"]
+  | IObs final w accs :: t =>
+      let m := view_of (snd s) in
+      (if panicked (snd s) then ["corr:model-panic"] else []) ++
+      failing "corr:" (view_eqb_parts w m) ++
+      failing "corr:accessors-" [("sums", amap_eqb acc_eqb accs (accs_of m))] ++
+      (if Bool.eqb final hyp then [] else ["corr:premises-evaluated-differently"]) ++
+      (if hyp then failing "oracle:" (fresh_eqb_parts (fst s) w) else []) ++
+      check_items s ok hyp t
+  end.
+
+Definition check_case (c : case) : list string := nodup string_dec (check_items (api0, cache0) true false c).
+
+Definition check_all (cs : list (Z * case)) : list (Z * string) :=
+  flat_map (fun ic => map (fun t => (fst ic, t)) (check_case (snd ic))) cs.
